@@ -4,7 +4,8 @@
   arithmetic reps (8 integer types of `AuModel.Arith`, 3 floating formats of `AuModel.Flt`).
 
     static_cast_checkers.hh:45-99     categorize_overflow_situation
-    static_cast_checkers.hh:101-145   StaticCastOverflowImpl (five situations)
+    static_cast_checkers.hh:101-154   StaticCastOverflowImpl (five situations; FLOAT_TO_ANYTHING as fixed
+                                      by commit fba9acf: `>=` when the limit rounds up)
     static_cast_checkers.hh:150-197   categorize_truncation_situation / StaticCastTruncateImpl
     quantity.hh:143-152               as<NewRep>(unit): cast to common type, apply_magnitude, cast
     quantity.hh:549-552               rep_cast
@@ -98,10 +99,22 @@ def castLimHi (s : FltTy) : ArithTy → Flt
   | .int d => Flt.ofInt s d.hi
   | .flt d => Flt.cast s (Flt.maxOf d)
 
-/-- `StaticCastOverflowImpl<Source, Dest, …>` for a floating source. -/
+/-- `std::numeric_limits<I>::digits` for an integer type. -/
+def intDigits (t : IntTy) : Nat := if t.signed then t.bits - 1 else t.bits
+
+/-- `max_rounds_up`: `Dest` is integral and `Source` has fewer digits than `Dest`, so that
+`static_cast<Source>(max(Dest))` rounds up to `2^N`, which is already out of range. -/
+def maxRoundsUp (s : FltTy) : ArithTy → Bool
+  | .int d => decide (s.prec < intDigits d)
+  | .flt _ => false
+
+/-- `StaticCastOverflowImpl<Source, Dest, …>` for a floating source (after the fix of F5: the upper
+test is `>=` when the limit was rounded up). -/
 def castOverflowF (s : FltTy) (d : ArithTy) (x : Flt) : Bool :=
   match categorizeOverflow (.flt s) d with
-  | .floatToAnything => Flt.lt x (castLimLo s d) || Flt.gt x (castLimHi s d)
+  | .floatToAnything =>
+    Flt.lt x (castLimLo s d) ||
+      (if maxRoundsUp s d then Flt.ge x (castLimHi s d) else Flt.gt x (castLimHi s d))
   | _ => false
 
 /-- The static_cast checkers exist for the pair (no `UNEXPLORED` situation). -/
